@@ -241,6 +241,11 @@ func (o *OvsdbServer) Monitor(client *rpc2.Client, args []json.RawMessage, reply
 	if err := json.Unmarshal(args[2], &request); err != nil {
 		return err
 	}
+	// the contents sent in the reply and the registration of the monitor have
+	// to be consistent with the order of the transactions: a transaction is
+	// either part of the contents or notified
+	o.txnMutex.Lock()
+	defer o.txnMutex.Unlock()
 	o.monitorMutex.Lock()
 	defer o.monitorMutex.Unlock()
 	clientMonitors, ok := o.monitors[client]
@@ -287,6 +292,11 @@ func (o *OvsdbServer) MonitorCond(client *rpc2.Client, args []json.RawMessage, r
 	if err := json.Unmarshal(args[2], &request); err != nil {
 		return err
 	}
+	// the contents sent in the reply and the registration of the monitor have
+	// to be consistent with the order of the transactions: a transaction is
+	// either part of the contents or notified
+	o.txnMutex.Lock()
+	defer o.txnMutex.Unlock()
 	o.monitorMutex.Lock()
 	defer o.monitorMutex.Unlock()
 	clientMonitors, ok := o.monitors[client]
@@ -333,6 +343,11 @@ func (o *OvsdbServer) MonitorCondSince(client *rpc2.Client, args []json.RawMessa
 	if err := json.Unmarshal(args[2], &request); err != nil {
 		return err
 	}
+	// the contents sent in the reply and the registration of the monitor have
+	// to be consistent with the order of the transactions: a transaction is
+	// either part of the contents or notified
+	o.txnMutex.Lock()
+	defer o.txnMutex.Unlock()
 	o.monitorMutex.Lock()
 	defer o.monitorMutex.Unlock()
 	clientMonitors, ok := o.monitors[client]
